@@ -1,0 +1,40 @@
+//! C14 hooks: wrappers for the crate-private 3x3 symmetric matrix type used by the
+//! exponential and power cones (packed upper triangle, column by column).
+use crate::algebra::DenseMatrixSym3;
+
+fn sym3(d: [f64; 6]) -> DenseMatrixSym3<f64> {
+    DenseMatrixSym3 { data: d }
+}
+pub fn sym3_mul(h: [f64; 6], x: [f64; 3]) -> [f64; 3] {
+    let mut y = [0.0; 3];
+    sym3(h).mul(&mut y, &x);
+    y
+}
+pub fn sym3_quad_form(h: [f64; 6], y: [f64; 3], x: [f64; 3]) -> f64 {
+    sym3(h).quad_form(&y, &x)
+}
+pub fn sym3_norm_fro(h: [f64; 6]) -> f64 {
+    sym3(h).norm_fro()
+}
+pub fn sym3_index_linear(r: usize, c: usize) -> usize {
+    DenseMatrixSym3::<f64>::index_linear((r, c))
+}
+/// entry (r,c) through the Index impl
+pub fn sym3_get(h: [f64; 6], r: usize, c: usize) -> f64 {
+    sym3(h)[(r, c)]
+}
+/// Cholesky factor (packed) or None when a pivot is not positive
+pub fn sym3_chol_factor(a: [f64; 6]) -> Option<[f64; 6]> {
+    let mut l = DenseMatrixSym3::<f64>::zeros();
+    if l.cholesky_3x3_explicit_factor(&sym3(a)) {
+        Some(l.data)
+    } else {
+        None
+    }
+}
+pub fn sym3_chol_solve(l: [f64; 6], b: [f64; 3]) -> [f64; 3] {
+    let mut x = [0.0; 3];
+    sym3(l).cholesky_3x3_explicit_solve(&mut x, &b);
+    x
+}
+pub use crate::solver::core::cones::{verif_newton_raphson_powcone, verif_wright_omega};
